@@ -116,7 +116,7 @@ pub fn campaigns(ctx: &Ctx) -> Stats {
             Some(exact_case(opi, &shapes[(p / ns) as usize], &shapes[(p % ns) as usize]))
         },
     ));
-    let (max_rank, max_size, total, max_elems) = ctx.tier.pick((5usize, 6usize, 40000u64, 400usize), (5, 8, 600000, 4096));
+    let (max_rank, max_size, total, max_elems) = ctx.tier.pick((5usize, 6usize, 40000u64, 400usize), (5, 8, 400000, 2048));
     let strat = move || {
         (
             prop::collection::vec(1..=max_size, 1..=max_rank),
@@ -137,6 +137,9 @@ pub fn campaigns(ctx: &Ctx) -> Stats {
 pub fn run(ctx: &Ctx) -> i32 {
     let mut st = ctx.run_replays(&dispatch);
     st.merge(campaigns(ctx));
+    if ctx.tier == Tier::Thorough {
+        st.merge(ctx.run_fuzz(30000, ctx.threads, &dispatch));
+    }
     finish(
         ctx,
         st,
